@@ -582,3 +582,11 @@ impl Rng {
         self.next() & 1 == 1
     }
 }
+
+pub fn ostep<I: DoubleEndedIterator>(it: &mut I, back: bool) -> Option<I::Item> {
+    if back {
+        it.next_back()
+    } else {
+        it.next()
+    }
+}
